@@ -46,6 +46,10 @@ type Config struct {
 //	deny p / allow p   the allow-peer policy is changed for publisher p (Config.Filter)
 //	rej p c      Announce(head c of p) while the policy rejects p: must be a no-op
 //	relay p c    a peer that is not allowed announces head c of p: must be a no-op
+//	close        Subscriber.Close() is called in a goroutine; it is let run until it waits for
+//	             the explicit syncs (or, when there is none, until just before it closes the
+//	             receiver) and held there until the end of the schedule: nothing that waits
+//	             for the semaphore or a mutex may wake up because of it
 //	try t        thread t, whose next operation the model says blocks, is let go anyway: it
 //	             must be seen blocked on the mutex / semaphore (no model step)
 //	sleep ms     real time passes (idle-cleaner scenario); then RemoveHandler(p) is used
@@ -76,6 +80,8 @@ func (d Decision) String() string {
 		return fmt.Sprintf("go%d", d.T)
 	case "try":
 		return fmt.Sprintf("try%d", d.T)
+	case "close":
+		return "close"
 	case "deny", "allow":
 		return fmt.Sprintf("%s%d", d.K, d.P)
 	case "rej", "relay":
@@ -116,6 +122,9 @@ var interesting = map[string]bool{
 	YAsyncHandled: true, YSyncHandled: true, YLatestSet: true, YEventSent: true,
 }
 
+// the yield points of doClose up to the wait for the explicit syncs
+var closePoints = map[string]bool{"close:closing-closed": true, "close:exp-blocked": true, "close:exp-waited": true}
+
 var Watchdog = 4 * time.Second
 
 var runMu sync.Mutex // SetVerifYield is process-global: one run at a time
@@ -133,6 +142,9 @@ type Run struct {
 
 	arrivals chan *arrival
 	early    []*arrival  // arrivals of woken-up threads seen while waiting for another one
+	closerG  uint64      // goroutine running Subscriber.Close (0: none)
+	closerAt *arrival    // where it is parked
+	closerOn atomic.Bool // the close:* yield points park (only while a close decision is in force)
 	earlyW   *arrival    // the watcher back at watch:next with the queued announcement, seen early
 	free     atomic.Bool // yields pass through (teardown)
 
@@ -274,7 +286,7 @@ func NewRun(cfg Config) *Run {
 		opts = append(opts, dagsync.IdleHandlerTTL(time.Duration(cfg.IdleTTL)*time.Millisecond))
 	}
 	dagsync.SetVerifYield(func(point string, p peer.ID) {
-		if interesting[point] {
+		if interesting[point] || (r.closerOn.Load() && closePoints[point]) {
 			r.yieldAt(point, p, cid.Undef)
 		}
 	})
@@ -343,6 +355,10 @@ func (r *Run) waitFor(what string, accept func(a *arrival) bool) *arrival {
 			}
 			if a.point == YWatchNext && r.annOut != nil && r.earlyW == nil {
 				r.earlyW = a
+				continue
+			}
+			if r.closerG != 0 && a.goid == r.closerG {
+				r.closerArrived(a)
 				continue
 			}
 			r.raw(a, -1)
@@ -463,6 +479,10 @@ func (r *Run) waitBlocked(t int) {
 		// it did not block: it will show up at a yield point and be reported there
 		select {
 		case a := <-r.arrivals:
+			if r.closerG != 0 && a.goid == r.closerG {
+				r.closerArrived(a)
+				break
+			}
 			r.early = append(r.early, a)
 			if a.goid == g {
 				r.raw(a, t)
@@ -587,6 +607,47 @@ func (r *Run) advance(t int, pre *arrival, release func()) {
 	}
 }
 
+func (r *Run) closerArrived(a *arrival) {
+	r.Raw = append(r.Raw, RawEvent{Goid: a.goid, Tid: -1, Point: a.point})
+	r.closerAt = a
+	if a.point != "close:exp-waited" {
+		r.abort("yield-mismatch", "Subscriber.Close is at %s, expected close:exp-waited", a.point)
+		return
+	}
+	for t, th := range r.M.Threads {
+		if (th.Kind == KExplicit || th.Kind == KEntries) && th.PC != Fin {
+			r.abort("close-did-not-wait", "Subscriber.Close passed the wait for explicit syncs while thread %d (pc %v) is still in its sync", t, th.PC)
+			return
+		}
+	}
+}
+
+// settle gives goroutines that should NOT move a moment to show that they do: arrivals
+// of threads blocked on a lock are kept for drainWakeups (which reports them when the model
+// says the lock is still held)
+func (r *Run) settle(d time.Duration) {
+	deadline := time.After(d)
+	for {
+		select {
+		case a := <-r.arrivals:
+			if r.closerG != 0 && a.goid == r.closerG {
+				r.closerArrived(a)
+				continue
+			}
+			if t, ok := r.tidOf[a.goid]; ok && r.blocked[t] {
+				r.early = append(r.early, a)
+				continue
+			}
+			r.raw(a, -1)
+			r.abort("unexpected-arrival", "goroutine %d arrived at %s (publisher %d) although nothing let it go", a.goid, a.point, r.pubOf[a.peer])
+			r.release(a)
+			return
+		case <-deadline:
+			return
+		}
+	}
+}
+
 // threads that were blocked on a mutex / the semaphore and can now proceed arrive by
 // themselves: wait for them, one at a time, and replay their steps
 func (r *Run) drainWakeups() {
@@ -600,6 +661,7 @@ func (r *Run) drainWakeups() {
 		if !any {
 			if len(r.early) > 0 {
 				a := r.early[0]
+				r.raw(a, r.tidOf[a.goid])
 				r.abort("mutual-exclusion", "goroutine %d passed a lock the model says is held: arrived at %s", a.goid, a.point)
 			}
 			return
@@ -697,6 +759,10 @@ func (r *Run) Do(d Decision) {
 		if r.M.Threads[0].PC == WNext && r.parked[0] == nil && r.annOut == nil {
 			select {
 			case a := <-r.arrivals:
+				if r.closerG != 0 && a.goid == r.closerG {
+					r.closerArrived(a)
+					break
+				}
 				r.raw(a, -1)
 				r.parked[0] = a
 				r.abort("rejected-announcement-delivered", "an announcement of head %d of publisher %d that the allow filter rejects reached the watcher (%s)", d.C, d.P, a.point)
@@ -796,6 +862,39 @@ func (r *Run) Do(d Decision) {
 				r.fail("remove-mismatch", "RemoveHandler(publisher %d) removed a handler the model says is in use", d.P)
 			}
 		}
+	case "close":
+		if r.closerG != 0 {
+			r.abort("script", "close twice")
+			return
+		}
+		r.closerOn.Store(true)
+		ready := make(chan uint64)
+		go func() {
+			ready <- goid()
+			_ = r.Sub.Close()
+		}()
+		r.closerG = <-ready
+		// close(s.closing), then block new explicit syncs, then wait for the running ones
+		for _, pt := range []string{"close:closing-closed", "close:exp-blocked"} {
+			a := r.waitFor("Subscriber.Close reaching "+pt, func(a *arrival) bool { return a.goid == r.closerG })
+			if a == nil {
+				return
+			}
+			r.Raw = append(r.Raw, RawEvent{Goid: a.goid, Tid: -1, Point: a.point})
+			if a.point != pt {
+				r.abort("yield-mismatch", "Subscriber.Close is at %s, expected %s", a.point, pt)
+				r.closerAt = a
+				return
+			}
+			if pt == "close:closing-closed" {
+				r.M.Closing = true
+				r.emit("CloseBegin", Yield{})
+			}
+			r.release(a)
+		}
+		// from here Close waits for the explicit syncs; it shows up at close:exp-waited when
+		// they are done and is held there.  Nothing else may move because of it.
+		r.settle(4 * time.Millisecond)
 	case "try":
 		// thread t runs into a held mutex / the full semaphore and waits there (no model
 		// step): checks that the real code blocks where the model says it does
@@ -828,6 +927,10 @@ func (r *Run) Finish() {
 		return
 	}
 	r.closed = true
+	if r.closerG != 0 && !r.Aborted {
+		r.settle(2 * time.Millisecond)
+		r.drainWakeups()
+	}
 	r.ObsQuiescent = !r.Aborted && r.M.AllIdle() && r.annOut == nil && len(r.blocked) == 0
 	if !r.Aborted {
 		// every event the model sent must come out of OnSyncFinished
@@ -864,6 +967,9 @@ func (r *Run) Finish() {
 	}
 	if r.earlyW != nil {
 		r.release(r.earlyW)
+	}
+	if r.closerAt != nil {
+		r.release(r.closerAt)
 	}
 drain:
 	for {
